@@ -1,5 +1,5 @@
-\* as is: two workers race for two peers, one lost connection
-SPECIFICATION Spec
+\* witness wanted (coarse schedule, replayable): DialRespectsBackoff fails for the code as it is
+SPECIFICATION SpecB
 CONSTANTS
   Peers = {"p1", "p2"}
   Self = "self"
@@ -7,18 +7,19 @@ CONSTANTS
   Workers = {"w1", "w2"}
   Callers = {}
   Delay = 1
-  MaxRounds = 2
+  MaxRounds = 3
   MaxDrops = 1
   MaxInbound = 0
   MaxFail = 0
   MaxCalls = 0
   MaxApi = 0
-  WithGC = TRUE
+  WithGC = FALSE
   AtomicPeers = FALSE
   SignedWant = FALSE
   Serialized = FALSE
   DirectAPI = FALSE
+  MaxLen = 200
 CHECK_DEADLOCK FALSE
 VIEW state
-INVARIANTS TypeOK SizeBound ReportedExactlyOnce ViewBookkeeping PeersResult
-PROPERTIES ContactLeavesBackoff GCInvisible
+ACTION_CONSTRAINT CoarseSchedule
+PROPERTIES DialRespectsBackoff
